@@ -909,18 +909,18 @@ def exec_cases(
     """Run cases `conc` at a time (most expensive first); results in input
     order. Cases not started before `deadline` (monotonic) are 'skipped'."""
     conc = conc or default_concurrency()
-    by_cost = sorted(range(len(cases)), key=lambda i: -cases[i].get('est', 0))
-    # expensive cases start early, but alternate with cheap ones so that a
-    # budget cut-off leaves a mix of what was planned
-    order = []
-    lo, hi = 0, len(by_cost) - 1
-    while lo <= hi:
-        order.append(by_cost[lo])
-        lo += 1
-        for _ in range(2):
-            if lo <= hi:
-                order.append(by_cost[hi])
-                hi -= 1
+    # every optimization level is spread evenly over the schedule (expensive
+    # levels first within a round), so that a budget cut-off leaves a mix of
+    # what was planned
+    groups: dict[int, list[int]] = {}
+    for i, c in enumerate(cases):
+        groups.setdefault(int(c['config']['level']), []).append(i)
+    keyed = []
+    for lvl, idxs in groups.items():
+        idxs = sorted(idxs, key=lambda i: -cases[i].get('est', 0))
+        for pos, i in enumerate(idxs):
+            keyed.append(((pos + 0.5) / len(idxs), -lvl, i))
+    order = [i for _, _, i in sorted(keyed)]
     out: list[Any] = [None] * len(cases)
 
     def work(i: int) -> None:
